@@ -192,7 +192,7 @@ package s2
 // ---------------------------------------------------------------- polygons always carry an index
 
 //@ func (p *Polygon) initEdgesAndIndex()
-//@   requires p != nil && (forall k int :: 0 <= k && k < len(p.loops) ==> p.loops[k] != nil && len(p.loops[k].vertices) >= 1)
+//@   requires p != nil && (forall k int :: 0 <= k && k < len(p.loops) ==> p.loops[k] != nil)
 //@   modifies p.numEdges, p.cumulativeEdges, p.index
 //@   ensures [index] p.index != nil
 //@   loop 1 (rangeindex int): invariant p != nil
